@@ -13,7 +13,7 @@ import os
 from checks import strings_common as sc
 from vlib import core
 
-THEOREMS = ["C17_decode", "C17_html_safe", "C17_no_lt", "C17_used_only", "C17_spec", "C17_old_refuted", "C17_old_refuted_script"]
+THEOREMS = ["C17_decode", "C17_html_safe", "C17_no_lt", "C17_used_only", "C17_access_times", "C17_page_registry", "C17_spec", "C17_old_refuted", "C17_old_refuted_script"]
 PROPS = "theories/Props/C17.v"
 REGISTRY = {
     "level": "proof",
@@ -50,8 +50,15 @@ DIMS = {
     "repeat_in_request": ["no", "yes"],
     "mix": ["-", "one", "locales", "namespaces", "both"],
     "cls_pos": ["none"] + ["%s@%s" % (c, p) for c in sc.CLASSES for p in ("first", "middle", "last")],
+    # WHEN the accessors of a used unit run: only while the HTML is rendered (t!/td! closures), only while the children
+    # of the provider are being built (t_string!/td_string!/t_display!/td_display! in a component body), or both
+    "access": ["none", "lazy_only", "eager_only", "both"],
+    "eager_macro": ["none", "td_string", "td_display", "t_string", "t_display"],
+    "eager_place": ["none", "page_body", "nested_component"],
+    "lazy_macro": ["none", "td", "t"],
+    "wrap": ["provider", "sub_provider_component", "plain_subcontext_function"],
 }
-EMPTY_VALUES = {"units": "0", "hist": "none", "touchkind": "none", "mix": "-", "cls_pos": "none"}
+EMPTY_VALUES = {"units": "0", "hist": "none", "touchkind": "none", "mix": "-", "cls_pos": "none", "access": "none"}
 
 
 def infeasible(A, a, B, b):
@@ -62,7 +69,7 @@ def infeasible(A, a, B, b):
                 if d2 == d:
                     continue
                 if d2 in EMPTY_VALUES and x != EMPTY_VALUES[d2]:
-                    return "a request that uses no unit has units=0, hist=none, touchkind=none, mix=-, cls_pos=none"
+                    return "a request that uses no unit has units=0, hist=none, touchkind=none, mix=-, cls_pos=none, access=none"
                 if (d2, x) in (("first_touch_outside", "yes"), ("defaulted", "yes"), ("repeat_in_request", "yes"),
                                ("outside", "same_unit"), ("prev", "same"), ("prev", "overlap")):
                     return "needs at least one unit used inside the provider"
@@ -70,7 +77,23 @@ def infeasible(A, a, B, b):
         if d in v and v[d] != e:
             for d2, x in v.items():
                 if d2 != d and d2 in EMPTY_VALUES and x == EMPTY_VALUES[d2]:
-                    return "a request that uses no unit has units=0, hist=none, touchkind=none, mix=-, cls_pos=none"
+                    return "a request that uses no unit has units=0, hist=none, touchkind=none, mix=-, cls_pos=none, access=none"
+    g = v.get
+    if (g("eager_macro") in (None, "none")) != (g("eager_place") in (None, "none")) and "eager_macro" in v and "eager_place" in v:
+        return "an eager access has a macro and a place"
+    for d2 in ("eager_macro", "eager_place"):
+        if g(d2) not in (None, "none") and (g("units") == "0" or g("access") in ("none", "lazy_only")):
+            return "an eager access uses a unit eagerly"
+        if g(d2) == "none" and g("access") in ("eager_only", "both"):
+            return "an eager access uses a unit eagerly"
+    if any(g(d) == e for d, e in EMPTY_VALUES.items()) and any(g(d2) not in (None, "none") for d2 in ("eager_macro", "eager_place", "lazy_macro")):
+        return "a request that uses no unit makes no access"
+    if g("repeat_in_request") == "no" and g("access") == "both":
+        return "a unit accessed lazily and eagerly is accessed twice"
+    if g("lazy_macro") not in (None, "none") and (g("units") == "0" or g("access") in ("none", "eager_only")):
+        return "a lazy access uses a unit lazily"
+    if g("lazy_macro") == "none" and g("access") in ("lazy_only", "both"):
+        return "a lazy access uses a unit lazily"
     if v.get("units") == "1" and v.get("hist") == "mixed":
         return "mixed history needs two units"
     if v.get("units") == "1" and v.get("mix") in ("namespaces", "both"):
@@ -126,7 +149,9 @@ class Plan:
 
     def tags(self, req, st):
         """tags of one request given the state of the process before it; returns (tags, state after)"""
-        ins = [self.info[i] for i in req["in"]]
+        lazy_idx = list(req["in"]) + list(req.get("ctx", ()))
+        eager = list(req.get("eager", ()))
+        ins = [self.info[i] for i in lazy_idx + [i for _, i in eager]]
         outs = [self.info[i] for i in req["out"]]
         used = {i["unit"] for i in ins}
         out_units = {i["unit"] for i in outs}
@@ -167,6 +192,17 @@ class Plan:
         for u in used:
             cp |= self.cls[u]
         t["cls_pos"] = cp if used else {"none"}
+        lazy_units = {self.info[i]["unit"] for i in lazy_idx}
+        eager_units = {self.info[i]["unit"] for _, i in eager}
+        acc = set()
+        for u in used:
+            acc.add("both" if u in lazy_units and u in eager_units else "eager_only" if u in eager_units else "lazy_only")
+        t["access"] = acc or {"none"}
+        names = {"e": "td_string", "d": "td_display", "c": "t_string", "p": "t_display"}
+        t["eager_macro"] = {names[c.lower()] for c, _ in eager} or {"none"}
+        t["eager_place"] = {("nested_component" if c.isupper() else "page_body") for c, _ in eager} or {"none"}
+        t["lazy_macro"] = ({"td"} if req["in"] else set()) | ({"t"} if req.get("ctx") else set()) or {"none"}
+        t["wrap"] = {DIMS["wrap"][req.get("wrap", 0)]}
         after = {"seen": seen_before | used | out_units, "first_outside": first_outside, "prev": used}
         return t, after
 
@@ -178,7 +214,7 @@ class Plan:
         pick = lambda u, kind=None, dflt=False: next(
             (rng.choice(v) for (uu, kk, dd), v in sorted(by.items(), key=lambda kv: repr(kv[0]))
              if uu == u and dd == dflt and (kind is None or kk == kind)), None)
-        cands = [{"in": [], "out": []}]
+        cands = [{"in": [], "out": []}, {"in": [], "out": [], "wrap": 1}, {"in": [], "out": [], "wrap": 2}]
         units = self.all_units
         for u in units:
             for kind in ("plain_top", "plain_sub", "interp_top", "interp_sub"):
@@ -247,7 +283,29 @@ class Plan:
                 ins = [x for x in (pick(u, rng.choice([None, "plain_sub", "interp_top", "interp_sub"])) or pick(u) for u in us) if x is not None]
                 cands.append({"in": ins, "out": []})
                 cands.append({"in": ins + ins[:1], "out": ins[-1:]})
-        return cands
+        return cands + [self.vary(rng, c) for c in cands if c["in"]] + [self.vary(rng, c) for c in cands if len(c["in"]) > 1]
+
+    def vary(self, rng, c):
+        """the same touches with other access times: evaluated eagerly in a component body (page or nested component,
+        td_string!/td_display!, t_string!/t_display! for the context's locale), lazily through the context (t!), or both"""
+        default = self.proj.locales[0]
+        v = {"in": [], "ctx": [], "eager": [], "out": list(c["out"]), "wrap": rng.choice([0, 0, 1, 2])}
+        mode = rng.choice(["all_eager", "all_eager", "mixed", "both", "ctx", "mixed_both"])
+        for j, i in enumerate(c["in"]):
+            isdef = self.touch_list[i][1] == default
+            code = rng.choice("edcp" if isdef else "ed")
+            if rng.random() < 0.4:
+                code = code.upper()
+            if mode == "all_eager" or (mode == "mixed" and j % 2 == 0):
+                v["eager"].append((code, i))
+            elif mode == "both" or (mode == "mixed_both" and j % 2 == 0):
+                v["eager"].append((code, i))
+                (v["ctx"] if isdef and rng.random() < 0.5 else v["in"]).append(i)
+            elif mode == "ctx" and isdef:
+                v["ctx"].append(i)
+            else:
+                v["in"].append(i)
+        return v
 
 
 FEASIBLE = None
@@ -294,9 +352,12 @@ def plan_requests(rng, plan, n_random, covered, cap):
             for _ in range(rng.choice([1, 1, 2, 3])):   # the same unit touched repeatedly, different keys
                 r.append(rng.choice(by_unit[u]))
         rng.shuffle(r)
-        push({"in": r, "out": []})
+        req = {"in": r, "out": []}
+        if rng.random() < 0.5:
+            req = plan.vary(rng, req)
+        push(req)
         if rng.random() < 0.3:
-            push({"in": list(r), "out": []})             # the same page again
+            push(dict(req))                              # the same page again
     feasible = feasible_pairs()
     cands = plan.candidates(rng)
     everything = [c for c in cands if len({plan.info[i]["unit"] for i in c["in"]}) == len(units) and not c["out"]][:1]
@@ -323,7 +384,7 @@ def plan_requests(rng, plan, n_random, covered, cap):
                 if g > gain:
                     best, gain = (fresh, seq), g
         if best is None:
-            if refreshed >= 4:
+            if refreshed >= 8:
                 break
             refreshed += 1
             cands = plan.candidates(rng)          # other random picks of keys / partner units
@@ -333,6 +394,11 @@ def plan_requests(rng, plan, n_random, covered, cap):
         for r in best[1]:
             push(r)
     return [p for p in procs if p]
+
+
+def request_line(r):
+    return ",".join([str(i) for i in r["in"]] + ["l%d" % i for i in r.get("ctx", ())] + ["%s%d" % (c, i) for c, i in r.get("eager", ())]
+                    + ["o%d" % i for i in r["out"]] + (["w%d" % r["wrap"]] if r.get("wrap") else []))
 
 
 def one_project(ctx, exe_tables, proj, tag, n_random, covered, cap):
@@ -358,7 +424,7 @@ def one_project(ctx, exe_tables, proj, tag, n_random, covered, cap):
     # ONE process renders a whole sequence: whatever a request leaves behind in the process is seen by the next one
     runs = []
     for pi, reqs in enumerate(procs):
-        lines_in = "".join(",".join([str(i) for i in r["in"]] + ["o%d" % i for i in r["out"]]) + "\n" for r in reqs)
+        lines_in = "".join(request_line(r) + "\n" for r in reqs)
         rc, out, err = core.sh([exe], input=lines_in, timeout=900)
         lines = out.splitlines()
         if rc != 0 or len(lines) != len(reqs):
@@ -376,11 +442,15 @@ def one_project(ctx, exe_tables, proj, tag, n_random, covered, cap):
             tags, st = plan.tags(r, st)
             flat.append((pi, seq_no, r, line, tags))
     for pi, seq_no, r, line, tags in flat:
-        touched = [touch_list[i] for i in r["in"]]
-        used = sorted({plan.info[i]["unit"] for i in r["in"]}, key=lambda x: (x[0] or "", x[1]))
+        how = ([(i, "td! (lazy)") for i in r["in"]] + [(i, "t! (lazy)") for i in r.get("ctx", ())]
+               + [(i, {"e": "td_string!", "d": "td_display!", "c": "t_string!", "p": "t_display!"}[c.lower()]
+                   + (" (eager, nested component body)" if c.isupper() else " (eager, page component body)")) for c, i in r.get("eager", ())])
+        touched = [touch_list[i] for i, _ in how]
+        used = sorted({plan.info[i]["unit"] for i, _ in how}, key=lambda x: (x[0] or "", x[1]))
         meta = {"project": tag, "process": pi, "position_in_process": seq_no, "locales": proj.locales, "namespaces": proj.namespaces,
-                "touched": [{"namespace": t[0], "locale": t[1], "key": ".".join(t[2]),
-                             "reads_locale": plan.info[i]["unit"][1]} for i, t in zip(r["in"], touched)],
+                "request_line": request_line(r), "wrapper": DIMS["wrap"][r.get("wrap", 0)],
+                "touched": [{"namespace": t[0], "locale": t[1], "key": ".".join(t[2]), "how": h,
+                             "reads_locale": plan.info[i]["unit"][1]} for (i, h), t in zip(how, touched)],
                 "touched_outside_provider": [{"namespace": touch_list[i][0], "locale": touch_list[i][1],
                                               "key": ".".join(touch_list[i][2])} for i in r["out"]],
                 "tags": {k: sorted(v) for k, v in tags.items()},
